@@ -36,6 +36,15 @@ Theorem matmul_rejects (A B : ttm R) (x y : tt R) (X : dense R) :
 Proof.
   repeat split; try reflexivity; intros H; unfold matmul_dispatch; rewrite H; reflexivity.
 Qed.
+(* the TT layer: an input whose trailing dimensions are not size_in is refused; otherwise the call is the modelled forward (C20) *)
+Theorem forward_rejects (W : ttm R) (bias X : dense R) ia :
+  (length W <=? length (dshape X))%nat && eqb_ln (shapeN W) (skipn (length (dshape X) - length W) (dshape X)) = false ->
+  apply_op OForward [VM W; VD bias; VD X] ia = VErr EShape.
+Proof. intros H. unfold apply_op, forward_call. rewrite H. reflexivity. Qed.
+Theorem forward_accepts (W : ttm R) (bias X : dense R) ia :
+  (length W <=? length (dshape X))%nat && eqb_ln (shapeN W) (skipn (length (dshape X) - length W) (dshape X)) = true ->
+  apply_op OForward [VM W; VD bias; VD X] ia = VD (forward W bias X).
+Proof. intros H. unfold apply_op, forward_call. rewrite H. reflexivity. Qed.
 (* sum(index) with an axis outside 0..d-1 *)
 Theorem sum_rejects (x : tt R) index : all_lt index (length x) = false -> apply_op OSum [VT x] [index] = VErr EArgs.
 Proof. intros H. unfold apply_op. rewrite H. reflexivity. Qed.
